@@ -75,6 +75,107 @@ def choose_node_part(ctx):
             ctx.violation(f'avg correlation {d["corr"]} but mean winning correlation over own votes is {exp}', d)
 
 
+def avg_corr_part(ctx):
+    """tally_votes / aggregate_votes / choose_node against Model.AvgCorr (tag 203): the REAL nearest neighbours and
+    correlations of every bootstrap iteration are recorded through a wrapper of correlation_nearest_neighbors that
+    rounds each correlation to a multiple of 2^-20 (so the binary64 sums of the implementation are exact and the
+    reported quotient is the correctly rounded quotient of two exact numbers); votes, bootstrapping probability and
+    average correlation of the winner AND of every runner-up slot are then compared for equality, not within a
+    tolerance."""
+    from cell_type_mapper.type_assignment import election
+    rng = ctx.rng
+    D = 1 << 20
+    real = election.distance_utils.correlation_nearest_neighbors
+    rec = []
+
+    def wrapper(*a, **kw):
+        nn, corr = real(*a, **kw)
+        corr = np.round(np.asarray(corr, dtype=float) * D) / D
+        rec.append((np.asarray(nn).copy(), corr.copy()))
+        return nn, corr
+
+    cases, meta = [], []
+    election.distance_utils.correlation_nearest_neighbors = wrapper
+    try:
+        for k in range(ctx.n(60, 1500)):
+            n_q = rng.randrange(1, 4)
+            n_ref = rng.randrange(1, 8)
+            n_g = rng.choice([1, 2, 3, 4, 6, 8, 12])
+            hi = rng.choice([3, 97])
+            q = np.array([[rng.randrange(0, hi) / 8.0 for _ in range(n_g)] for _ in range(n_q)])
+            refs = np.array([[rng.randrange(0, hi) / 8.0 for _ in range(n_g)] for _ in range(n_ref)])
+            if rng.random() < 0.3:
+                owners = rng.sample(range(n_ref + 3), n_ref)      # all distinct: aggregate_votes is skipped, columns unsorted
+            else:
+                n_types = rng.randrange(1, n_ref + 1)
+                owners = [rng.randrange(0, n_types) for _ in range(n_ref)]
+            pad = rng.choice([1, 2])                               # 't10' < 't2' when unpadded
+            types = [f't{o:0{pad}d}' for o in owners]
+            factor = rng.choice([0.25, 0.5, 0.75, 1.0])
+            iters = rng.choice([1, 2, 3, 7, 10, 10, 40, 300])
+            n_assign = rng.choice([1, 2, 3, 10])
+            del rec[:]
+            try:
+                result, prob, corr, runners = election.choose_node(
+                    query_gene_data=q, reference_gene_data=refs, reference_types=list(types), bootstrap_factor=factor,
+                    bootstrap_iteration=iters, rng=np.random.default_rng(rng.randrange(10 ** 6)), n_assignments=n_assign)
+            except Exception as e:                                 # noqa
+                ctx.disagreements_checked += 1
+                ctx.violation(f'choose_node raised {type(e).__name__}: {e}',
+                              {'class': 'c02-choose-node-raises', 'kind': 'avg_corr', 'q': q.tolist(), 'refs': refs.tolist(),
+                               'types': types, 'factor': factor, 'iters': iters, 'n_assign': n_assign})
+                continue
+            tnames = sorted(set(owners))
+            for i in range(n_q):
+                its = [[int(nn[i]), int(round(float(c[i]) * D))] for nn, c in rec]
+                slots = [[int(str(result[i])[1:]), float(prob[i]), float(corr[i])]] + \
+                        [[int(str(t[0])[1:]), float(t[3]), float(t[2])] for t in runners[i]]
+                cases.append((203, [owners, its, tnames]))
+                meta.append({'kind': 'avg_corr', 'q': q[i].tolist(), 'refs': refs.tolist(), 'types': types, 'owners': owners,
+                             'factor': factor, 'iters': iters, 'n_assign': n_assign, 'iterations': its, 'D': D,
+                             'slots': slots, 'n_recorded': len(rec)})
+    finally:
+        election.distance_utils.correlation_nearest_neighbors = real
+    res = ctx.model(cases)
+    for (tag, case), m, d in zip(cases, res, meta):
+        owners, its, tnames = case
+        ctx.count(('ac', json.dumps(case)), nontrivial=len(set(owners)) < len(owners) and d['iters'] > 1)
+        ctx.dist('avg_corr_iterations', d['iters'])
+        ctx.dist('avg_corr_types_leaves', f'{len(tnames)}/{len(owners)}')
+        if d['n_recorded'] != d['iters']:
+            ctx.disagreements_checked += 1
+            d['class'] = 'c02-iteration-count'
+            ctx.violation(f'{d["n_recorded"]} bootstrap iterations were run, {d["iters"]} requested', d)
+            continue
+        # the property's own statement, recomputed here from the recorded iterations
+        votes = {t: 0 for t in tnames}
+        csum = {t: Fraction(0) for t in tnames}
+        for leaf, c in its:
+            votes[owners[leaf]] += 1
+            csum[owners[leaf]] += Fraction(c, D)
+        bad = None
+        for t, p, c in d['slots']:
+            exp_p = votes[t] / d['iters']
+            exp_c = float(csum[t] / max(1, votes[t]))
+            if p != exp_p or c != exp_c:
+                bad = (t, p, c, exp_p, exp_c)
+                break
+        if bad:
+            ctx.disagreements_checked += 1
+            d['class'] = 'c02-avg-corr'
+            ctx.violation(f'type t{bad[0]}: reported probability {bad[1]} / average correlation {bad[2]!r}, but its own votes give '
+                          f'{bad[3]} / {bad[4]!r} (mean winning correlation over the iterations that voted for it)', d)
+            continue
+        # correspondence with the extracted model
+        ok = m[0] == 0 and [r[0] for r in m[1]] == tnames and \
+            all(r[1] == votes[r[0]] and Fraction(r[2], D) == csum[r[0]] for r in m[1])
+        ctx.traces_validated += 1
+        if not ok:
+            d['class'] = 'corr:AvgCorr.tally_corr'
+            d['model'] = m
+            ctx.violation(f'model votes / correlation sums {m} differ from the direct recomputation', d, no_input=True)
+
+
 def raw_profile_part(ctx):
     """The vote is cast on the cell's log2(CPM+1) profile: a run on RAW counts (several chunks, several workers,
     cells whose total lies in (0,1), all-zero cells) must give what a run on the same cells normalised here
@@ -134,12 +235,15 @@ def run(ctx):
                 'every (cell, node) vote recomputed from the input files and the recorded subsets; non-trivial = a vote '
                 'among >= 2 children; (iii) raw-count runs (several chunks / workers, totals in (0,1), all-zero cells) against runs on the '
                 'log2(CPM+1) profile computed here; near ties (relative margin <= 1e-9 between leaves of different children) are skipped '
-                'and counted')
+                'and counted; (iv) choose_node with the real per-iteration neighbours and correlations recorded (correlations '
+                'rounded to multiples of 2^-20): votes, probability and average correlation of the winner and of every '
+                'runner-up slot equal to the extracted Model.AvgCorr and to the mean over the own votes, exactly')
     ctx.assumptions += ['float rounding inside np.dot / np.mean is not modelled: decisions are compared, near ties excused; '
                         'correlation values compared within 1e-9',
                         'bootstrap factors are dyadic so that factor*n is exact in binary64',
                         'a parent with >= 2 children always lists at least one query gene (an entry without any is the rejection studied by C08); single-child parents may list reference genes that the query lacks']
     choose_node_part(ctx)
+    avg_corr_part(ctx)
     raw_profile_part(ctx)
     mapcheck.run_batch(ctx, ctx.n(25, 400), ('c02-', 'c08-reported', 'corr:Vote', 'corr:trace'), 'map')
 
